@@ -152,10 +152,11 @@ private:
 		Thread* t = (Thread*)p;
 		ASL_VERIF_HOOK(12, t, 0);
 		t->run();
+		bool deleteOnExit = t->_deleteOnExit; // read before the flag store: once finished() is true the owner may destroy *t
 		ASL_VERIF_HOOK(17, t, 0);
 		t->_threadFinished = true;
 		ASL_VERIF_HOOK(13, t, 0);
-		if (t->_deleteOnExit)
+		if (deleteOnExit)
 			delete t;
 		return 0;
 	}
